@@ -4,6 +4,7 @@ from .c14 import run_items, conditions
 
 FORMS = ["Co", "Co30Fe70", "SiO2", "Au", "NaCl", "Gd2O3", "Eu", "Dy", "Co[59]", "AgCl", "In", "Mn0.5Ni0.5", "LiF", "Al2O3", "Cu", "W", "Ta",
          "Na", "Mn", "V", "Ir", "Sc2O3", "KBr", "CsI", "La", "Hf", "Re", "Lu2O3"]
+TWO_STEP = ["Lu2O3", "Ta", "Tb", "Tm", "Co", "Sc2O3", "Ir", "Lu", "W", "Re"]
 RESTLISTS = [[0], [0, 1, 24, 360], [1], [24, 1], [5, 0.5, 100], [2, 0.5], [360, 0], [0.25]]
 FRACS = [1e-9, 1e-6, 1e-3, 0.01, 0.1, 0.5, 0.9, 0.999, 1.0, 1.001, 1.5, 2.0, 10.0]
 
@@ -19,6 +20,15 @@ def tasks(ctx, quick):
         lists = [RESTLISTS[0]] + rng.sample(RESTLISTS[1:], 3 if quick else 7)
         items.append({"id": "t%d" % i, "kind": "decay", "formula": rng.choice(FORMS), "cond": c, "restlists": lists,
                       "targets": rng.sample(FRACS, 5 if quick else len(FRACS))})
+        if i % 4 == 1:
+            items[-1]["reuse"] = rng.choice([1e-3, 0.01, 100.0])
+    # two-step ('2n') products that matter at the answer: strong flux, long exposure
+    for f in TWO_STEP:
+        for fl, ex in ([(1e13, 1e3)] if quick else [(1e13, 1e3), (1e12, 1e4), (1e13, 100.0), (1e11, 1e4)]):
+            c = conditions(rng)
+            c.update(fluence=fl, exposure=ex, rests=[0], cd=0.0, fast_ratio=0.0)
+            items.append({"id": "t%d" % len(items), "kind": "decay", "formula": f, "cond": c, "restlists": [[0], [1], [0, 24, 360]],
+                          "targets": [1e-3, 0.01, 0.1, 0.5, 0.9]})
     return items
 
 
